@@ -7,6 +7,9 @@ Emitted (Generated.v):
       gen_jp_prev_existing_year  -- does the opening-balance reference name the sheet of the year
                                     handled in the previous loop iteration (the previous EXISTING
                                     year) rather than the hard-wired `year - 1`?
+      gen_jp_intra_yen_guard_on_crypto -- is the yen value of a transfer's lost amount kept whenever the
+                                    lost amount itself is > 0 (rather than only when the yen value is
+                                    > 0 at 13 decimals, which leaves a sold amount without yen value)?
   * row arithmetic: first transaction row (row_index = 21), TRANSACTION_ROW_START, the value returned
     as previous_year_row_offset (row_index + 9), summary start row (setdefault(year, 7)), the column
     of each transaction-row field, the asset label cell;
@@ -390,6 +393,37 @@ def _generate_asset_year(cls, passes_prev):
             "prev_existing": prev_existing, "opening": opening}
 
 
+# ----------------------------------------------------------------------------- __process_intra_transaction
+def _process_intra(cls):
+    """the row of a transfer: which comparison decides whether the yen value of the lost amount is kept.
+    true  = `transaction_fee_in_yen if transaction_fee_in_crypto > ZERO else None` (guarded like the sold amount),
+    false = `transaction_fee_in_yen if transaction_fee_in_yen > ZERO else None` (finding F14: a positive amount whose yen
+            value is 0 at 13 decimals has a sold amount but no yen value)"""
+    fn = find_method(cls, "__process_intra_transaction")
+    b = _stmts(fn.body)
+    src = [_u(x) for x in b]
+    want_head = ["transaction_fee_in_crypto: Optional[RP2Decimal] = None", "transaction_fee_in_yen: Optional[RP2Decimal] = None",
+                 "transaction_fee_in_crypto = transaction.crypto_sent - transaction.crypto_received",
+                 "transaction_fee_in_yen = transaction_fee_in_crypto * transaction.spot_price"]
+    if src[:-1] != want_head or not isinstance(b[-1], ast.Return):
+        raise Unrecognised("__process_intra_transaction: body")
+    call = b[-1].value
+    if not (isinstance(call, ast.Call) and dotted(call.func) == "_TransactionRow" and not call.args):
+        raise Unrecognised("__process_intra_transaction: return value")
+    kw = {k.arg: _u(k.value) for k in call.keywords}
+    yen = kw.pop("sales_amount_in_yen", None)
+    if kw != {"transaction_type": "TransactionType.FEE.value.upper()", "transaction_month": "transaction.timestamp.month",
+              "transaction_day": "transaction.timestamp.day", "transaction_client": "_(self.TRANSFER)",
+              "sales_crypto_amount": "transaction_fee_in_crypto if transaction_fee_in_crypto > ZERO else None",
+              "fee_in_yen": "ZERO", "gift": "ZERO"}:
+        raise Unrecognised("__process_intra_transaction: row fields")
+    if yen == "transaction_fee_in_yen if transaction_fee_in_yen > ZERO else None":
+        return False
+    if yen == "transaction_fee_in_yen if transaction_fee_in_crypto > ZERO else None":
+        return True
+    raise Unrecognised(f"__process_intra_transaction: sales_amount_in_yen = {yen}")
+
+
 # ----------------------------------------------------------------------------- templates / texts
 def _template(repo, lang):
     import ezodf
@@ -474,6 +508,7 @@ def _frag_jp(repo):
         raise Unrecognised("__init__")
     years_sorted, passes_prev, totals = _generate_asset(cls)
     y = _generate_asset_year(cls, passes_prev)
+    yen_guard = _process_intra(cls)
     # (previous_year handed over but the name still built from `year - 1`: recognised, prev_existing = false)
     # templates: identical geometry in every shipped language
     tmpl = None
@@ -497,6 +532,7 @@ def _frag_jp(repo):
     s += "Inductive jval := JF (ps : list jpiece) | JOpen (ps : list jpiece) | JAsset | JDonations | JGifts.\n"
     s += f"Definition gen_jp_years_sorted : bool := {'true' if years_sorted else 'false'}.\n"
     s += f"Definition gen_jp_prev_existing_year : bool := {'true' if y['prev_existing'] else 'false'}.\n"
+    s += f"Definition gen_jp_intra_yen_guard_on_crypto : bool := {'true' if yen_guard else 'false'}.\n"
     s += f"Definition gen_jp_first_row : Z := {y['first']}.\n"
     s += f"Definition gen_jp_transaction_row_start : Z := {trs}.\n"
     s += f"Definition gen_jp_return_delta : Z := {y['ret']}.\n"
@@ -533,12 +569,13 @@ def _single_return(m):
 
 
 def flags(repo):
-    """(years_sorted, prev_existing_year) as the translator reads them, or None when the shape is unrecognised"""
+    """(years_sorted, prev_existing_year, intra_yen_guard_on_crypto) as the translator reads them, or None when the shape
+    is unrecognised"""
     try:
         cls = find_class(_jp_tree(repo), "Generator")
         ys, pp, _ = _generate_asset(cls)
         y = _generate_asset_year(cls, pp)
-        return ys, y["prev_existing"]
+        return ys, y["prev_existing"], _process_intra(cls)
     except Exception:  # noqa: BLE001
         return None
 
